@@ -168,6 +168,13 @@ func lbUint(v any) uint64 {
 	u, _ := strconv.ParseUint(string(n), 10, 64)
 	return u
 }
+func lbInts(v any) []int {
+	var out []int
+	for _, e := range lbArr(v) {
+		out = append(out, int(lbInt(e)))
+	}
+	return out
+}
 func lbStrs(v any) []string {
 	var out []string
 	for _, e := range lbArr(v) {
@@ -193,8 +200,10 @@ func lbDecodeCfg(raw []byte) (lbCfg, error) {
 		ic := lbInstCfg{AutoConnect: lbBool(im["auto_connect"]), Reactive: lbBool(im["reactive"]), ShutOnClose: lbBool(im["shut_on_close"]), Spec: lbStrs(im["spec"])}
 		for _, sv := range lbArr(im["steps"]) {
 			sm := lbObj(sv)
-			ic.Steps = append(ic.Steps, lbStep{AtNs: lbInt(sm["at_ns"]), Op: lbStr(sm["op"]), SC: int(lbInt(sm["sc"])), Spec: lbStrs(sm["spec"]), State: int(lbInt(sm["state"]))})
+			ic.Steps = append(ic.Steps, lbStep{AtNs: lbInt(sm["at_ns"]), Op: lbStr(sm["op"]), SC: int(lbInt(sm["sc"])), Spec: lbStrs(sm["spec"]), State: int(lbInt(sm["state"])), Addrs: lbInts(sm["addrs"]), ViaCC: lbBool(sm["via_cc"])})
 		}
+		ic.HCMask = int(lbInt(im["hc_mask"]))
+		ic.InitSCs = int(lbInt(im["init_scs"]))
 		c.Insts = append(c.Insts, ic)
 	}
 	for _, wv := range lbArr(m["watchers"]) {
@@ -208,6 +217,14 @@ func lbDecodeCfg(raw []byte) (lbCfg, error) {
 	for _, cv := range lbArr(m["cancels"]) {
 		cm := lbObj(cv)
 		c.Cancels = append(c.Cancels, lbCancelCfg{RPC: uint32(lbUint(cm["rpc_id"])), AtNs: lbInt(cm["at_ns"])})
+	}
+	if hm := lbObj(m["health"]); hm != nil {
+		h := &lbHealthCfg{Init: lbInts(hm["init"]), DelayNs: lbInt(hm["delay_ns"])}
+		for _, sv := range lbArr(hm["steps"]) {
+			sm := lbObj(sv)
+			h.Steps = append(h.Steps, lbHealthStep{AtNs: lbInt(sm["at_ns"]), Addr: int(lbInt(sm["addr"])), Status: int(lbInt(sm["status"]))})
+		}
+		c.Health = h
 	}
 	if rm := lbObj(m["retry"]); rm != nil {
 		c.Retry = &lbRetryCfg{MaxAttempts: int(lbInt(rm["max_attempts"])), Codes: lbStrs(rm["codes"]), BackoffNs: lbInt(rm["backoff_ns"])}
